@@ -26,7 +26,7 @@ ASSUMPTIONS = ["trajectory comparison restricted to the numerically stable regim
 
 @S.composite
 def strategy_(g):
-    case = GG.gen(g, n_pose=(2, 8), n_lm=(0, 3), n_loops=(0, 3), conds=(1.0, 1e2), noise=(0.05, 0.05), pert=(0.3, 0.3), features=("parallel", "reversed", "permute", "ids", "multifixed", "rn_lm_offsets", "quat-signs", "pure-translation-steps", "near-identity-orientations"))
+    case = GG.gen(g, n_pose=(2, 8), n_lm=(0, 3), n_loops=(0, 3), conds=(1.0, 1e2), noise=(0.05, 0.05), pert=(0.3, 0.3), features=("parallel", "reversed", "permute", "ids", "multifixed", "rn_lm_offsets", "quat-signs", "pure-translation-steps", "near-identity-orientations", "info-scale", "flag-types"))
     base = case["base"]
     sT = g.choice([1.0, 10.0, 1e3, 1e6])
     T = g.pose(base, s=sT)
